@@ -10,6 +10,11 @@ CLAIMED = {
     text='Decides, for every request text at once, that no Exception class can leave either dispatch entry point (every raising site is routed to a handler, assertions of the message constructors are discharged from call-site facts), that the wire form has jsonrpc/id always and exactly one of result/error, that an accepted batch is never serialised empty, and that the codes tuple is computed from the serialised object. It does not enumerate inputs; it shows the code shape forces the behaviour, or names the construct where it does not.',
     note='Trusted: python ast, the pjx engine, a summary table for external callees (json.loads raises JSONDecodeError/ValueError, Signature.bind raises TypeError, ...). Assumes the default slot configuration (json.loads/dumps, v20 classes), that callables from dispatcher constructor parameters (middlewares, error handlers) do not raise (the property\'s proviso), that method results are JSON-encodable. Not decided: NaN literals, nesting beyond the recursion limit, custom loaders.',
     ref='DESIGN.md §3 C01'),
+ 'C06': dict(
+    technique='static analysis: exception-escape by relational abstract interpretation (sentinel kinds) of the five from_json entry points with an unconstrained JSON argument + guard-dominance rules (member type table, bool-is-not-int, container guards) + write-before-raise ordering for batch append/extend',
+    text='Decides for every JSON value at once that nothing but DeserializationError (IdentityError for batches) can leave a from_json: each raising site (explicit raises, KeyError of subscripts, constructor assertions analysed in the caller\'s context with falsifying assignments as witnesses) is routed through the handlers; every protocol member is dominated by a type guard within the specification table; batch append/extend perform no write before the last possible IdentityError.',
+    note='Trusted: python ast, pjx engine, the admitted-type table (id: int|str|null, method: str, params: list|dict, code: int, message: str). Assumes from_json receives decoded JSON. TypeError/AttributeError from using a non-container as a container are covered by the CONTAINER-GUARD dominance rule rather than by the escape analysis.',
+    ref='DESIGN.md §3 C06'),
 }
 
 NA_REASON = 'check under construction (static rules designed in DESIGN.md section 3, not yet built)'
